@@ -17,7 +17,7 @@ EXPLANATION = (
     "each insertion is paired with an increment of that task's hash count; _decrement_hash_count removes at 1 and otherwise subtracts "
     "exactly 1; task_hashes = keys with positive count; C37.2 both tables are written only inside TaskRegistry (repo-wide, keyed by "
     "receiver); C37.3 rename re-registers the task under the hash of its new identity (recompute_hash between mutation and add); "
-    "C37.4 wraps_task saves the visible name, hides the inner task under '<ns>.<wrapper>' before creating the visible task with the saved name."
+    "C37.4 wraps_task saves the visible name, hides the inner task under '<ns>.<wrapper>' before creating the visible task with the saved name. C37.1 also requires every insertion `_tasks[k] = v` to be dominated by a pop of the same key k (the displaced task is decremented by the removal rule)."
 )
 
 TASK = "redun/task.py"
@@ -62,6 +62,16 @@ def run(ctx):
                         tv = src(a.value)
                         incs = [x for x in cfg.nodes if x.kind == "stmt" and isinstance(x.ast, ast.AugAssign) and isinstance(x.ast.op, ast.Add) and src(x.ast.target) == f"self._task_hash_counts[{tv}.hash]" and src(x.ast.value) == "1"]
                         ok = bool(incs) and cfg.must_pass(n, incs) and src(t.slice) == f"{tv}.fullname"
+                        # the entry previously stored under the same key is displaced: it must have been popped (and, by the removal rule, decremented) first
+                        key = src(t.slice)
+                        pops_same = [x for x in cfg.nodes if x.kind == "stmt" and any(isinstance(c, ast.Call) and call_name(c) == "self._tasks.pop" and c.args and src(c.args[0]) == key for c in ast.walk(x.ast))]
+                        r1.check(
+                            any(cfg.dominates(x, n) for x in pops_same),
+                            f"{m.rel}:TaskRegistry.{name}:displace",
+                            f"`{src(a)}` may overwrite another task registered under {key} without popping it first: the displaced task's hash stays counted, so task_hashes keeps a hash of a task the registry no longer holds",
+                            m.rel,
+                            a.lineno,
+                        )
                         r1.check(ok, f"{m.rel}:TaskRegistry.{name}:insert", "an insertion into _tasks is not keyed by the task's fullname and paired with `_task_hash_counts[task.hash] += 1` on every path", m.rel, a.lineno)
     dec = methods.get("_decrement_hash_count")
     if dec is None:
@@ -110,8 +120,9 @@ def run(ctx):
     cfg = CFG(rn)
     muts = [n for n in cfg.nodes if n.kind == "stmt" and isinstance(n.ast, ast.Assign) and any(isinstance(t, ast.Attribute) and t.attr in ("name", "namespace") for t in n.ast.targets)]
     adds = [cfg.node_of(c) for c in calls_in(rn, shallow=True) if call_name(c) == "self.add"]
-    if not muts or not adds:
-        raise AnalysisError("rename: mutation or re-add not found", "TaskRegistry.rename")
+    if not muts:
+        raise AnalysisError("rename: assignment of the new name/namespace not found", "TaskRegistry.rename")
+    # how the renamed task gets back into the tables (self.add or a direct insertion) is judged by C37.1's pairing rules
     # (a) counts use one attribute: add increments [task.hash], decrement reads task.hash (checked in C37.1)
     # (b) every write of a task's .hash / call of recompute_hash in the repo is in Task.__init__/__setstate__/recompute_hash,
     #     or inside a registry method strictly between the decrement of that task and its re-add.
